@@ -59,6 +59,18 @@ def gen_dist(rng, k, binary=False, gate=None):
             sup = [o for o in sup if o[-1] == o[a] % sizes[-1]] or sup
     elif pattern == 'random':
         sup = rng.sample(full, rng.randint(2, len(full)))
+    elif pattern == 'chain' and k == 2:
+        # a noisy Markov chain X_a -> X_b -> T: only one source has a direct link to the target
+        a, b = rng.sample([0, 1], 2)
+        e1, e2, px = rng.choice([0.1, 0.2, 0.3]), rng.choice([0.05, 0.15, 0.25]), rng.choice([0.5, 0.3, 0.6])
+        ps = []
+        for o in full:
+            pa = px if o[a] == 1 else 1 - px
+            pb = (1 - e1) if o[b] == o[a] else e1
+            pt = (1 - e2) if o[-1] == o[b] else e2
+            ps.append(pa * pb * pt)
+        tot = sum(ps)
+        return {'k': k, 'outs': full, 'ps': [v / tot for v in ps], 'pattern': 'chain', 'klass': rng.choice(['str', 'int']), 'dense': False}
     else:
         sup = full
     if len(sup) < 2:
@@ -94,6 +106,9 @@ def generate(rng, tier):
             while cls == 'PID_GK' and len(d['outs']) > 12:
                 d = gen_dist(rng, 2)
         cases.append({'d': d, 'cls': cls, 'perm': rng.random() < 0.6, 'explicit': rng.random() < 0.5})
+    # Markov chains source -> source -> target, in both source orders, for the measures built on paths / projections
+    for i in range(4 if tier == 'quick' else 30):
+        cases.append({'d': gen_dist(rng, 2, gate='chain'), 'cls': ['PID_CT', 'PID_Proj', 'PID_CT', 'PID_IG'][i % 4], 'perm': True, 'explicit': True})
     # Gacs-Korner meets of three sources in which only some pair shares information
     for i in range(4 if tier == 'quick' else 30):
         cases.append({'d': gen_dist(rng, 3, gate='dup'), 'cls': 'PID_GK', 'perm': True, 'explicit': i % 2 == 0})
